@@ -541,7 +541,10 @@ pub fn check_event(ev: &Event, st: &mut Stats, out: &mut Vec<Viol>) {
     {
         let h = ev.ticks[C_HASH];
         let rebuilt = post.table_at != pre.table_at || post.buckets != pre.buckets;
-        let may_rebuild = matches!(op, Op::Reserve { .. } | Op::TryReserve { .. } | Op::TryReserveFail { .. } | Op::ShrinkTo { .. } | Op::ShrinkFit | Op::Insert { .. } | Op::TryInsert { .. });
+        // "an insertion that grows the table": the table had no room left for one more entry (hashbrown: capacity() ==
+        // len() means growth_left == 0; departures inside the operation can only add room), or it ends up with more buckets
+        let grows = pre.cap == pre.len || post.buckets > pre.buckets;
+        let may_rebuild = matches!(op, Op::Reserve { .. } | Op::TryReserve { .. } | Op::TryReserveFail { .. } | Op::ShrinkTo { .. } | Op::ShrinkFit) || (matches!(op, Op::Insert { .. } | Op::TryInsert { .. }) && grows);
         let mut bound = 2 + dep.len() as u64;
         if matches!(op, Op::CloneCache) { bound += pre.len as u64; }
         else if rebuilt && may_rebuild { bound += pre.len.max(post.len) as u64; }
@@ -551,6 +554,7 @@ pub fn check_event(ev: &Event, st: &mut Stats, out: &mut Vec<Viol>) {
         if zero && h != 0 { v(out, "C20", "hash-free", format!("{} computed {} key hashes; it must hash nothing", op.to_text(), h)); }
         else if h > bound { v(out, "C20", "bound", format!("{} computed {} key hashes with {} entries held, {} leaving, table rebuilt: {}; bound {}", op.to_text(), h, pre.len, dep.len(), rebuilt, bound)); }
         if rebuilt && may_rebuild { st.count("c20_rebuilds"); }
+        if rebuilt && matches!(op, Op::Insert { .. } | Op::TryInsert { .. }) && post.buckets <= pre.buckets { st.count("c20_insert_rebuilds_of_tombstone_saturated_table"); }
         if !dep.is_empty() { st.count("c20_with_departures"); }
     }
     // ------------------------------------------------------------ C19 facet inside histories: &self operations leave the fingerprint alone
